@@ -137,6 +137,8 @@ def write_input(inp, d, seed_words):
 
 
 def argv(inp):
+    if inp.get("fixture"):
+        return ["--color", "never"] + list(inp["opts"]) + list(inp["paths"])
     a = ["--color", "never"] + list(inp["opts"])
     if inp["window"]:
         a += [inp["window"][0], inp["window"][1]]
@@ -302,6 +304,8 @@ def eval_cases(workdir, imports, fn, cases, nshards=None):
 
 
 def describe(inp):
+    if inp.get("fixture"):
+        return dict(argv=argv(inp), fixture=True, paths=list(inp["paths"]))
     return dict(argv=argv(inp), window=inp["window"][:2] if inp["window"] else None, as_dir=inp["as_dir"],
                 sources=[dict(name=s["name"], kind=s["kind"], container=s["container"], messages=len(s["msgs"]),
                               in_window=sum(1 for m in s["msgs"] if in_window(inp, m))) for s in inp["sources"]])
@@ -317,14 +321,20 @@ def save_input(inp, dest):
 
 
 def save_failure(prop, seed, inp, plan, exp_bytes, n, extra=None):
-    """copy a failing input (files + expected stdout) under replays/<prop>-inputs and return the case dict"""
+    """copy a failing input under replays/<prop>-inputs/<seed>-<n>/in and the expected stdout next to
+    it (not inside: the directory itself may be the argument); returns the case dict"""
     dest = os.path.join(vlib.ROOT, "replays", "%s-inputs" % prop, "%d-%d" % (seed, n))
-    os.makedirs(os.path.dirname(dest), exist_ok=True)
-    save_input(inp, dest)
+    if os.path.isdir(dest):
+        import shutil
+        shutil.rmtree(dest)
+    os.makedirs(dest)
+    ind = os.path.join(dest, "in")
+    save_input(inp, ind)
+    # the rendering depends on the directory (-p prepends the path): render for the saved copy
+    exp_bytes = expected_stdout(dict(inp, dir=ind))[0]
     with open(os.path.join(dest, "EXPECTED_STDOUT"), "wb") as f:
         f.write(exp_bytes)
-    av = [a.replace(inp["dir"], dest) for a in argv(inp)]
-    c = dict(dir=dest, argv=av, plan=plan, describe=describe(inp))
+    c = dict(dir=dest, argv=argv(dict(inp, dir=ind)), plan=plan, describe=describe(inp))
     if extra:
         c.update(extra)
     return c
@@ -338,6 +348,27 @@ def replay_failures(prop, path, repeats=1):
     for f in r.get("failures", []):
         c = f["case"]
         plans = c.get("plans") or [c.get("plan")]
+        if c.get("fixture"):
+            # instants are read back from the output: the order must be the k-way merge of them,
+            # and identical for every plan
+            outs = set()
+            for plan in plans:
+                for k in range(repeats):
+                    env = {"TZ": "UTC"}
+                    if plan:
+                        env["S4_VERIF_PLAN"] = plan
+                    rc, out, err = vlib.run_s4(c["argv"], timeout=60, env=env)
+                    pr = parse_fixture(dict(paths=c["paths"]), out)
+                    okk = rc == 0 and pr is not None and pr[1] == kway_merge(pr[0])
+                    outs.add(out)
+                    print("replay plan=%s rc=%d order %s k-way merge of the printed instants  argv=%s" % (
+                        plan, rc, "==" if okk else "!=", " ".join(c["argv"])))
+                    if not okk:
+                        bad += 1
+            if len(outs) > 1:
+                print("replay: %d distinct outputs across plans" % len(outs))
+                bad += 1
+            continue
         expb = open(os.path.join(c["dir"], "EXPECTED_STDOUT"), "rb").read()
         for plan in plans:
             for k in range(repeats):
@@ -354,3 +385,88 @@ def replay_failures(prop, path, repeats=1):
         print("VIOLATION property=%s replay=%s" % (prop, path))
         return 1
     return 0
+
+
+# ----------------------------------------------------------------------------- fixtures of other kinds
+# Sources of the other supported kinds (utmp records, Windows event log, systemd journal, in
+# their compressed variants) are taken from /repo/logs.  Their instants are not known to the
+# generator; they are read from s4's own output: with -p -u -d '%s%.9f' every line carries the
+# source path and the UTC instant of its message, and --separator marks message boundaries.
+# The check is then: the order of the output equals the k-way merge of the per-source instant
+# sequences (identical copies of one file in different containers give all-ties inputs).
+SEP_ARG = "@@SEP@@\\n"
+SEP_B = b"@@SEP@@\n"
+FIXTURE_OPTS = ["-p", "-u", "-d", "%s%.9f", "--separator", SEP_ARG]
+FIXTURE_FAMILIES = {
+    "utmp": ["logs/programs/utmp/host-entry6.wtmp" + e for e in ("", ".gz", ".xz", ".bz2", ".lz4")],
+    "evtx": ["logs/programs/evtx/Microsoft-Windows-Kernel-PnP%4Configuration.evtx" + e for e in (".gz", ".xz", ".bz2", ".lz4")],
+    "journal": ["logs/programs/journal/Ubuntu22-user-1000x3.journal" + e for e in (".gz", ".bz2", ".lz4", ".xz")],
+}
+DT_RE = re.compile(rb"(\d+)\.(\d{9}):")
+
+
+def fixture_families():
+    out = {}
+    for k, l in FIXTURE_FAMILIES.items():
+        ex = [os.path.join(vlib.REPO, p) for p in l if os.path.isfile(os.path.join(vlib.REPO, p)) and os.path.getsize(os.path.join(vlib.REPO, p)) > 64]
+        if ex:
+            out[k] = ex
+    return out
+
+
+def fixture_input(rng, fams):
+    keys = sorted(fams)
+    fam = rng.choice(keys)
+    paths = rng.sample(fams[fam], rng.randrange(2, len(fams[fam]) + 1)) if len(fams[fam]) >= 2 else list(fams[fam])
+    if len(keys) > 1 and rng.random() < 0.6:
+        other = rng.choice([k for k in keys if k != fam])
+        paths += rng.sample(fams[other], rng.randrange(1, min(2, len(fams[other])) + 1))
+    rng.shuffle(paths)
+    return dict(fixture=True, paths=paths, opts=list(FIXTURE_OPTS), family=fam, sources=[dict(name=os.path.basename(p)) for p in paths])
+
+
+def parse_fixture(inp, stdout):
+    """-> (per-source instants in ns, observed order [(source, k)]) or None when a line cannot be attributed"""
+    pbs = [p.encode() for p in inp["paths"]]
+    srcs = [[] for _ in pbs]
+    obs = []
+    chunks = stdout.split(SEP_B)
+    if chunks and chunks[-1].strip() != b"":
+        return None
+    for ch in chunks[:-1]:
+        ln = ch.split(b"\n", 1)[0]
+        hit = None
+        for i, pb in enumerate(pbs):
+            if ln.startswith(pb + b":"):
+                m = DT_RE.match(ln[len(pb) + 1:])
+                if m:
+                    hit = (i, m)
+                    break
+            m = DT_RE.match(ln)
+            if m and ln[m.end():].startswith(pb + b":"):
+                hit = (i, m)
+                break
+        if hit is None:
+            return None
+        i, m = hit
+        obs.append((i, len(srcs[i])))
+        srcs[i].append(int(m.group(1)) * 10**9 + int(m.group(2)))
+    return srcs, obs
+
+
+def corpus_inputs(prop):
+    """hand-picked inputs of corpus/<prop>/inputs.json as input dicts (not yet written to disk)"""
+    import json
+    p = os.path.join(vlib.ROOT, "corpus", prop, "inputs.json")
+    if not os.path.exists(p):
+        return []
+    out = []
+    for c in json.load(open(p))["inputs"]:
+        n = len(c["sources"])
+        srcs = []
+        for argpos, l in enumerate(c["sources"]):
+            msgs = [dict(inst=EPOCH0 * 10**9 + us * 1000, off=off, cont=cont) for us, off, cont in l]
+            kind = "sorted" if all(a["inst"] <= b["inst"] for a, b in zip(msgs, msgs[1:])) else "unsorted"
+            srcs.append(dict(sid=argpos, msgs=msgs, kind=kind, container="plain", name="c%02d.log" % (n - 1 - argpos)))
+        out.append(dict(sources=srcs, opts=list(c["opts"]), window=None, as_dir=False, corpus=c["name"]))
+    return out
